@@ -296,6 +296,10 @@ def scenarios(ctx):
             sc_["only_indels"] = True
         elif sc_["kind"] in ("rand", "gen") and rng.random() < 0.25 and not any(st.get("nalt", 1) == 2 for ch in sc_["chroms"] for st in ch["sites"]):
             sc_["nomav"] = True
+        elif sc_["kind"] in ("rand", "bxmol") and rng.random() < 0.35:
+            sc_["hp_enc"] = True           # the phased VCF given to haplotag is HP-encoded (fully unphased input to haplotagphase)
+            for ch_ in sc_["chroms"]:
+                ch_["keep"] = []
     if not no_hazard:
         bundle(hazard if not q else hazard[:40], "hazard:prephased_uncovered", 8)
     ctx.notes["scenario_kinds"] = {k: sum(1 for s in scs if s["kind"] == k) for k in sorted({s["kind"] for s in scs})}
@@ -327,6 +331,16 @@ def _project_vcf(path, nsmp, site_index, intern):
             gt = c.get("GT", ".")
             ps = c.get("PS", ".")
             al = [int(x) for x in gt.replace("|", "/").split("/") if x.isdigit()]
+            hp = c.get("HP", ".")
+            if hp not in (".", "") and "|" not in gt and len(al) == 2:
+                # HP encoding: entry i names (phase set, haplotype) of the i-th allele of GT
+                ent = [x.split("-") for x in hp.split(",")]
+                if len(ent) == 2 and all(len(x) == 2 and x[0].isdigit() and x[1] in ("1", "2") for x in ent) and ent[0][1] != ent[1][1]:
+                    dec = [0, 0]
+                    for a_, x in zip(al, ent):
+                        dec[int(x[1]) - 1] = a_
+                    out[s][j] = {"ph": True, "ps": int(ent[0][0]), "al": dec, "raw": intern.setdefault(f"{gt}:{hp}", len(intern) + 1)}
+                    continue
             out[s][j] = {"ph": "|" in gt, "ps": int(ps) if ps.lstrip("-").isdigit() else 0, "al": al,
                          "raw": intern.setdefault(f"{gt}:{ps}", len(intern) + 1)}
     return out
@@ -361,8 +375,18 @@ def drive(sc):
                 site_index[(lay["name"], v.pos + 1)] = len(site_index)
                 a2 = rng.choice([b for b in "ACGT" if b not in (v.ref, v.alt)]) if st.get("nalt", 1) == 2 else None
                 lay["alt2"].append(a2)
-                recs0.append({"chrom": lay["name"], "pos": v.pos + 1, "ref": v.ref, "alt": v.alt + ("," + a2 if a2 else ""), "fmt": ["GT", "PS"],
-                              "calls": [_call_text(st, s, psval.get((ci, s, st["set"][s]), 0)) for s in range(nsmp)]})
+                calls0 = [_call_text(st, s, psval.get((ci, s, st["set"][s]), 0)) for s in range(nsmp)]
+                if sc.get("hp_enc"):
+                    # the same phasing in the HP encoding (entry i names the haplotype of the i-th allele of GT), with the
+                    # unphased GT written in either allele order
+                    for c_ in calls0:
+                        if "|" in c_[0]:
+                            a_, b_ = c_[0].split("|")
+                            g_ = [a_, b_] if rng.random() < 0.5 else [b_, a_]
+                            c_[1] = ",".join(f"{c_[1]}-{1 if x == a_ else 2}" for x in g_)
+                            c_[0] = "/".join(g_)
+                recs0.append({"chrom": lay["name"], "pos": v.pos + 1, "ref": v.ref, "alt": v.alt + ("," + a2 if a2 else ""),
+                              "fmt": ["GT", "HP" if sc.get("hp_enc") else "PS"], "calls": calls0})
         v0 = W.write_vcf(os.path.join(d, "v0.vcf"), samples, contigs, recs0, compress=True)
         # reads
         reads, absreads = [], []
